@@ -177,6 +177,15 @@ func gridCommands() [][]string {
 		add("EVAL", s, "1", "fleet", "t1", "v\"al")
 		add("EVALRO", s, "1", "fleet", "t\"4")
 	}
+	for _, sc := range scriptMixedReserved {
+		add("EVAL", sc, "0")
+		add("EVALRO", sc, "0")
+		add("EVALNA", sc, "0")
+		add("SCRIPT", "LOAD", sc)
+		add("EVALSHA", sha1hex(sc), "0")
+		add("EVALROSHA", sha1hex(sc), "0")
+		add("EVALNASHA", sha1hex(sc), "0")
+	}
 	add("EVALSHA", sha1hex("return true"), "0")
 	add("EVALNASHA", sha1hex("nope"), "0")
 	testAreas := [][]string{{"POINT", "33.5", "-112.25"}, {"BOUNDS", "33", "-113", "34", "-112"}, {"CIRCLE", "33.5", "-112.25", "5000"}, {"GET", "fleet", "t3"}, {"GET", "fleet", "t\"4"}, {"HASH", "9tbn"}}
